@@ -2,7 +2,8 @@ import PyramidModel.Prelude
 import PyramidModel.ViewLookupJson
 import PyramidModel.Lemmas.ExcViewSpec
 /-! Driver for C14: one JSON case per line (see `harness/c14.py: model_input`).
-in : {"stmts":[{req,ctx,name,preds,accept,perm:"unset"|"npr"|"named",isexc,xonly,tag,body:["respond"]|["ctx"]|["raise",exc]}…],
+in : {"stmts":[{req,ctx,name,preds,accept,perm:"unset"|"npr"|"named",isexc,xonly,tag,body:["respond"]|["ctx"]|["raise",exc],touch:b}…],
+      "above":{"before":exc|null,"after":exc|null}, "policy":null|{"excinfo":null|"current"|exc,"secure":b,"reraise":b}, world.vresp:n,
       "world":{"policy":b,"defperm":b,"nf":exc,"mm":exc,"fb":exc,"xnf":exc,"xmm":exc,"xfb":exc},
       "site":["early",exc]|["lookup"], "req":request, "comb":[n…], "ctxobj":n, "attrs":[[k,v]…]}
      exc = {"id":n,"sro":[n…],"nf":b,"status":n|null}
@@ -43,13 +44,15 @@ def parseStmt (j : Json) : Except String Stmt := do
   let xonly ← (← j.getObjVal? "xonly").getBool?
   let tag ← (← j.getObjVal? "tag").getNat?
   let body ← parseBody (← j.getObjVal? "body")
-  pure ⟨rq, cx, name, preds, acc, perm, isexc, xonly, tag, body⟩
+  let touch ← (← j.getObjVal? "touch").getBool?
+  pure ⟨rq, cx, name, preds, acc, perm, isexc, xonly, tag, body, touch⟩
 
 def parseWorld (j : Json) : Except String World := do
   let e := fun (f : String) => do parseExc (← j.getObjVal? f)
   pure { sec := ⟨← (← j.getObjVal? "policy").getBool?, ← (← j.getObjVal? "defperm").getBool?⟩,
          notFound := ← e "nf", mismatch := ← e "mm", forbidden := ← e "fb",
-         excNotFound := ← e "xnf", excMismatch := ← e "xmm", excForbidden := ← e "xfb" }
+         excNotFound := ← e "xnf", excMismatch := ← e "xmm", excForbidden := ← e "xfb",
+         viewResponse := ← (← j.getObjVal? "vresp").getNat? }
 
 def parseSite (j : Json) : Except String Site :=
   match j with
@@ -62,6 +65,11 @@ def parseDict (j : Json) : Except String Dict := do
     match x with
     | .arr #[k, v] => pure ((← k.getStr?), (← v.getNat?))
     | _ => throw "bad attr"
+
+def parseOptExc (j : Json) : Except String (Option Exc) :=
+  match j with
+  | .null => pure none
+  | j => do pure (some (← parseExc j))
 
 def optJson : Option Nat → Json
   | none => Json.null
@@ -84,8 +92,21 @@ def main : IO Unit := jsonDriver fun j => do
   let comb ← natList (← j.getObjVal? "comb")
   let ctxObj ← (← j.getObjVal? "ctxobj").getNat?
   let d ← parseDict (← j.getObjVal? "attrs")
-  let res := excviewTween w stmts site req comb ctxObj d
-  let sp := expected w stmts site req comb ctxObj d
+  let aj ← j.getObjVal? "above"
+  let above : Above := ⟨← parseOptExc (← aj.getObjVal? "before"), ← parseOptExc (← aj.getObjVal? "after")⟩
+  let res0 := invokeRequest w stmts above site req comb ctxObj d
+  let pol ← match (← j.getObjVal? "policy") with
+    | .null => pure Policy.default
+    | pj => do
+      let ei ← match (← pj.getObjVal? "excinfo") with
+        | .null => pure none
+        | .str "current" => pure (match res0.outcome with | .error x => some x | .ok _ => none)
+        | ej => do pure (some (← parseExc ej))
+      pure (Policy.invoking ⟨ei, ← (← pj.getObjVal? "secure").getBool?, ← (← pj.getObjVal? "reraise").getBool?⟩)
+  let tw := excviewTween w stmts site req comb ctxObj d
+  let res : Result := { executionPolicy pol w stmts above site req comb ctxObj d with
+                        caught := match above.before with | some _ => none | none => tw.caught }
+  let sp := specPolicy pol w stmts above site req comb ctxObj d
   let regs := allRegs w.sec stmts
   let reg := registerAll regs
   let names := ["exception", "exc_info", "response"]
